@@ -58,3 +58,28 @@ Theorem c18_raw_field_refuted : exists s,
   skeleton (render (strip [Trusted [60;98;62]; Raw s; Trusted [60;47;98;62]])).
 Proof. exact raw_field_refuted. Qed.
 Print Assumptions c18_raw_field_refuted.
+
+(* ---- html/template's field escapers by context (text / quoted attribute / unquoted attribute / quoted URL
+   attribute behind an arbitrary URL stage) ---- *)
+Theorem c18_field_contexts_safe : forall c s,
+  attr_safe (render_field c s) = true /\
+  (c = CtxAttrUnquoted -> unq_safe (render_field c s) = true).
+Proof. exact field_contexts_safe. Qed.
+Print Assumptions c18_field_contexts_safe.
+
+(* the value an HTML tokenizer reads from a double-quoted attribute is exactly the escaped field *)
+Theorem c18_quoted_value : forall s rest, until_quote (tmpl_escape s ++ 34 :: rest) = tmpl_escape s.
+Proof. exact quoted_value_is_field. Qed.
+Print Assumptions c18_quoted_value.
+
+(* ... and from an unquoted attribute (VALUE={{.DefaultUsername}} of the login form): the whole escaped field,
+   never empty, whatever blank or '>' follows *)
+Theorem c18_unquoted_value : forall s c rest, unq_end c = true ->
+  until_unq_end (nospace_escape s ++ c :: rest) = nospace_escape s /\ nospace_escape s <> [].
+Proof. exact unquoted_value_is_field. Qed.
+Print Assumptions c18_unquoted_value.
+
+(* not vacuous: the quoted-attribute escaper in an unquoted position lets a blank end the value *)
+Example c18_quoted_escaper_unquoted_refuted :
+  unq_safe (tmpl_escape [120; 32; 111; 110; 120; 61; 49]) = false.
+Proof. reflexivity. Qed.
